@@ -299,7 +299,16 @@ fn spawn_worker(exe: &str, id: &str, tier: Tier, seed: u64, start: u64, stride: 
     WorkerSlot { child, current: None, started_at: Instant::now(), next_after_death: start, stride, end, stderr_path, done: false }
 }
 
+/// Class of a worker death plus, when the run was executed with VERIF_ANNOUNCE (confirmation and
+/// replay runs), the library call that was being made.
 fn death_signature(status: &std::process::ExitStatus, stderr: &str, run: u64, timed_out: bool) -> (String, String) {
+    let (class, detail) = death_class(status, stderr, run, timed_out);
+    match stderr.lines().rev().find(|l| l.starts_with("CALL ")) {
+        Some(c) => (format!("{} in {}", class, &c[5..]), detail),
+        None => (class, detail),
+    }
+}
+fn death_class(status: &std::process::ExitStatus, stderr: &str, run: u64, timed_out: bool) -> (String, String) {
     use std::os::unix::process::ExitStatusExt;
     // first panic announced for this run, if any
     let marker = format!("PANIC run={} ", run as i64);
@@ -448,12 +457,16 @@ pub fn supervisor_main(info: &CheckInfo, total_runs: u64, tier: Tier, verif_seed
                     }
                 };
                 let timed_out = stderr.contains("SUPERVISOR-TIMEOUT");
-                let (sig, detail) = death_signature(&status, &stderr, i, timed_out);
-                // confirm: re-execute run i alone, twice
+                let (class, detail) = death_class(&status, &stderr, i, timed_out);
+                // confirm: re-execute run i alone, twice, announcing each library call, so that the
+                // signature can name the call being made
                 let mut confirmed = 0;
+                let mut sig = class.clone();
                 for attempt in 0..2 {
                     let out = Command::new(&exe)
                         .args(["--worker", id, tier.name(), &verif_seed.to_string(), &i.to_string(), "1", &(i + 1).to_string()])
+                        .env("VERIF_ANNOUNCE", "1")
+                        .env("VERIF_WORKDIR", &work)
                         .stdin(Stdio::null())
                         .stdout(Stdio::piped())
                         .stderr(Stdio::piped())
@@ -461,9 +474,11 @@ pub fn supervisor_main(info: &CheckInfo, total_runs: u64, tier: Tier, verif_seed
                         .and_then(|mut c| wait_with_timeout(&mut c, timeout + Duration::from_secs(5)));
                     match out {
                         Ok((st, _o, e, to)) => {
+                            let (class2, _) = death_class(&st, &e, i, to);
                             let (sig2, _) = death_signature(&st, &e, i, to);
-                            if (!st.success() || to) && sig2 == sig {
+                            if (!st.success() || to) && class2 == class && (attempt == 0 || sig2 == sig) {
                                 confirmed += 1;
+                                sig = sig2;
                             }
                         }
                         Err(e) => harness_errors.push(format!("confirm run {} attempt {}: {}", i, attempt, e)),
@@ -708,6 +723,7 @@ pub fn replay_main(check: &mut dyn Check, ctx: &WorkerCtx, path: &str) -> i32 {
         let limit = Duration::from_secs(check.info().per_run_timeout_s);
         let r = Command::new(exe)
             .args(["--worker", id, tier, &seed.to_string(), &i.to_string(), "1", &(i + 1).to_string()])
+            .env("VERIF_ANNOUNCE", "1")
             .stdin(Stdio::null())
             .stdout(Stdio::piped())
             .stderr(Stdio::piped())
